@@ -4,6 +4,7 @@ import (
 	"sort"
 
 	hydrapb "github.com/hydraide/hydraide/sdk/go/hydraidego/v3/hydraidepbgo"
+	"github.com/hydraide/hydraide/app/core/hydra/swamp/bucket/valuecanon"
 	"github.com/hydraide/hydraide/app/core/hydra/swamp/treasure"
 	"google.golang.org/protobuf/types/known/timestamppb"
 )
@@ -370,6 +371,16 @@ func evaluateBytesFieldFilterAgainstMap(decoded map[string]interface{}, filter *
 		return false
 	}
 
+	// EQUAL follows the canonical value-equality rule of package valuecanon,
+	// the same rule the bucket index answers with: cross-kind numeric
+	// equality only when the conversion is lossless (5.7 is not equal to 5).
+	if op == hydrapb.Relational_EQUAL {
+		if want, ok := compareValueToAny(filter); ok {
+			return valuecanon.Equal(valuecanon.Canonicalize(fieldVal), valuecanon.Canonicalize(want))
+		}
+		return false
+	}
+
 	switch cv := filter.GetCompareValue().(type) {
 	case *hydrapb.TreasureFilter_Int8Val:
 		if v, ok := toInt64(fieldVal); ok {
@@ -447,12 +458,9 @@ func evaluateInt32In(fieldVal interface{}, vals []int32) bool {
 	if fieldVal == nil || len(vals) == 0 {
 		return false
 	}
-	v, ok := toInt64(fieldVal)
-	if !ok {
-		return false
-	}
+	have := valuecanon.Canonicalize(fieldVal)
 	for _, allowed := range vals {
-		if v == int64(allowed) {
+		if valuecanon.Equal(have, valuecanon.Canonicalize(int64(allowed))) {
 			return true
 		}
 	}
@@ -464,12 +472,9 @@ func evaluateInt64In(fieldVal interface{}, vals []int64) bool {
 	if fieldVal == nil || len(vals) == 0 {
 		return false
 	}
-	v, ok := toInt64(fieldVal)
-	if !ok {
-		return false
-	}
+	have := valuecanon.Canonicalize(fieldVal)
 	for _, allowed := range vals {
-		if v == allowed {
+		if valuecanon.Equal(have, valuecanon.Canonicalize(allowed)) {
 			return true
 		}
 	}
